@@ -19,6 +19,7 @@ xv::Scenario make_scn(const drv::Program& p) {
   };
   xv::Scenario s; s.nthreads = (int)p.threads.size();
   s.setup = [=] {
+    xv::name_range(items, sizeof(int), 64, 0);
     d->reset(new D);
     if (p.config[0] == 'f') xv::ev("cfg", "fixedcap", atoi(p.config.c_str() + 1));
     for (auto& o : p.setup) exec(o);
